@@ -26,6 +26,7 @@ pub fn list() -> Vec<(&'static str, super::Scenario)> {
         ("indep_stale", indep_stale),
         ("wake_stale_entry", wake_stale_entry),
         ("indep_race", indep_race),
+        ("sync_wipe", sync_wipe),
     ]
 }
 
@@ -221,6 +222,7 @@ fn fd_result(cfg: &Cfg) {
     let mut body = if gated { Body::gated(&g) } else { Body::plain() };
     // (`selfwake`=1: the operation first wakes itself during its poll, like a cooperative yield, and then waits for the event)
     body.self_wake = cfg.opt("selfwake", 0) == 1;
+    let pins: Vec<(Obj, BGate)> = vec![];
     let mut hs = vec![];
     let mut kept = None;
     let mut polled_once = None;
@@ -266,10 +268,16 @@ fn fd_result(cfg: &Cfg) {
     }
     w.desync(&q, "M", Body::plain());
     g.open();
+    for (_, bg) in &pins {
+        bg.open();
+    }
     for (i, h) in hs.into_iter().enumerate() {
         join(h, &format!("consumer{}", i));
     }
     rt::quiesce();
+    for (x, _) in &pins {
+        expect_idle(x);
+    }
     if let Some(rx) = polled_once {
         if let Ok(Some((f, token, rec, op))) = rx.try_recv() {
             if pool > 0 {
@@ -1032,7 +1040,46 @@ fn pool_census(cfg: &Cfg) {
     if pool == 0 && rt::created_threads_named(POOL_NAME) != 0 {
         rt::violation("CENSUS a pool thread was created although the maximum is 0".into());
     }
-    if phases == 3 {
+    if phases == 4 {
+        // one more thread than objects... a job on the most recently spawned pool thread panics (the thread is dead but not yet
+        // reaped: no scheduling call follows); then the maximum is lowered and the pool brought down
+        let newmax = pool + 2;
+        scheduler().verif_set_max_threads(newmax);
+        rt::set_census_limit(POOL_NAME, newmax);
+        let mut extra = vec![];
+        let mut bgs = vec![];
+        for i in 0..newmax {
+            let o = w.raw();
+            let bg = BGate::new();
+            let body = Body { bgate: Some(bg.clone()), panic: i == newmax - 1, ..Body::default() };
+            w.desync(&o, &format!("K{}", i), body);
+            bgs.push(bg);
+            extra.push(o);
+        }
+        rt::quiesce();
+        for bg in &bgs {
+            bg.open();
+        }
+        rt::quiesce();
+        let lower = 1;
+        scheduler().verif_set_max_threads(lower);
+        scheduler().despawn_threads_if_overloaded();
+        rt::set_census_limit(POOL_NAME, lower);
+        if rt::live_threads_named(POOL_NAME) > lower {
+            rt::violation(format!("CENSUS {} pool threads alive after lowering the maximum to {} and despawning (one thread had died in a panic and was not reaped yet)", rt::live_threads_named(POOL_NAME), lower));
+        }
+        for (i, o) in objs.iter().enumerate() {
+            w.desync(o, &format!("L{}", i), Body::plain());
+        }
+        rt::quiesce();
+        if rt::live_threads_named(POOL_NAME) > lower {
+            rt::violation(format!("CENSUS {} pool threads alive with maximum {}", rt::live_threads_named(POOL_NAME), lower));
+        }
+        // (the object whose job panicked is not checked for idleness)
+        for o in &extra[..extra.len() - 1] {
+            expect_idle(o);
+        }
+    } else if phases == 3 {
         // lower the maximum while every pool thread is busy: despawn must wait for the surplus threads and bring the pool down
         let mut bgs = vec![];
         for (i, o) in objs.iter().enumerate() {
@@ -1447,6 +1494,58 @@ fn indep_race(cfg: &Cfg) {
         bg.open();
     }
     let all: Vec<&Obj> = objs.iter().collect();
+    finish(&w, &all, pool);
+    shutdown();
+}
+
+/// C04: two sync callers blocked in the background on one busy queue, a future operation queued between
+/// their jobs.  The first caller returns while the second is still registered and waiting; the queue is
+/// then suspended, every pool thread becomes busy elsewhere, and only then does the wake-up arrive: the
+/// second caller must still be told, so that it can run the queue itself.
+fn sync_wipe(cfg: &Cfg) {
+    let pool = cfg.pool();
+    setup(pool);
+    let w = World::new();
+    w.prelude(cfg);
+    let q = w.raw();
+    let (bg_j, g) = (BGate::new(), Gate::new());
+    w.desync(&q, "J", Body::blocking(&bg_j));
+    rt::quiesce();
+    let mut hs = vec![];
+    {
+        let (w1, q1) = (w.clone(), q.clone());
+        hs.push(spawn(move || { w1.sync(&q1, "B", Body::plain()); }));
+    }
+    rt::quiesce();
+    w.future_desync(&q, "FD", Body::gated(&g)).detach();
+    {
+        let (w1, q1) = (w.clone(), q.clone());
+        hs.push(spawn(move || { w1.sync(&q1, "C", Body::plain()); }));
+    }
+    rt::quiesce();
+    // work for the pool threads once they are done with J: it keeps them busy while the wake-up arrives
+    let mut pins = vec![];
+    for i in 0..pool {
+        let x = w.raw();
+        let bg = BGate::new();
+        w.desync(&x, &format!("X{}", i), Body::blocking(&bg));
+        pins.push((x, bg));
+    }
+    bg_j.open();
+    rt::quiesce();
+    let g1 = g.clone();
+    let env = spawn(move || g1.open());
+    for (i, h) in hs.into_iter().enumerate() {
+        join(h, &format!("caller{}", i));
+    }
+    join(env, "env");
+    for (_, bg) in &pins {
+        bg.open();
+    }
+    let mut all: Vec<&Obj> = vec![&q];
+    for (x, _) in &pins {
+        all.push(x);
+    }
     finish(&w, &all, pool);
     shutdown();
 }
